@@ -136,6 +136,42 @@ class PyIter(object):
         return self.items[self.pos:]
 
 
+class LazyIter(PyIter):
+    """`iter.map(f)`: the closure runs when an element is pulled, as in Rust (a short-circuiting consumer such as
+    `sum::<Option<_>>`, `all`, `find`, `collect::<Result<_,_>>` leaves the remaining side effects undone)"""
+    __slots__ = ("src", "fn", "cache")
+
+    def __init__(self, src, fn):
+        self.src = src          # a list, or another LazyIter
+        self.fn = fn
+        self.cache = []
+        self.pos = 0
+
+    def total(self):
+        return self.src.total() if isinstance(self.src, LazyIter) else len(self.src)
+
+    def get(self, i):
+        while len(self.cache) <= i:
+            j = len(self.cache)
+            x = self.src.get(j) if isinstance(self.src, LazyIter) else self.src[j]
+            self.cache.append(self.fn(x))
+        return self.cache[i]
+
+    @property
+    def items(self):
+        n = self.total()
+        if n:
+            self.get(n - 1)
+        return self.cache
+
+    def pull(self):
+        """the remaining elements, one at a time"""
+        while self.pos < self.total():
+            v = self.get(self.pos)
+            self.pos += 1
+            yield v
+
+
 class Closure(object):
     __slots__ = ("path", "env", "machine", "tyenv")
 
